@@ -13,7 +13,8 @@ GRID = 2**32
 
 
 def key_string(salt, splitters, env) -> str:
-    return (salt or "") + "".join(str(env[n]) for n in sorted(splitters))
+    # (a field named twice in the splitters clause is still one field: the scheme speaks of the fields, in name order)
+    return (salt or "") + "".join(str(env[n]) for n in sorted(set(splitters)))
 
 
 def position_of_key(key: str) -> int:
